@@ -48,6 +48,24 @@ struct ReplaySpec {
     /// capacity of the archive reader's BufReader for this history (None = derived from the history)
     #[serde(default)]
     bufcap: Option<usize>,
+    /// a `ragc inspect` invocation (options of the command)
+    #[serde(default)]
+    inspect: Option<InspectSpec>,
+}
+
+#[derive(Clone, Debug, Serialize, Deserialize)]
+pub struct InspectSpec {
+    verbosity: u32,
+    show_groups: bool,
+    show_segments: bool,
+    group_id: Option<u32>,
+    sample: Option<String>,
+    contig: Option<String>,
+    index: Option<usize>,
+    single_groups: bool,
+    segment_layout: bool,
+    pack_layout: bool,
+    compression: bool,
 }
 
 fn explore(source: PipeSpec, only: Option<ReplaySpec>, index: u64, tier: Tier, want_sample: bool) -> RunReport {
@@ -66,7 +84,7 @@ fn explore(source: PipeSpec, only: Option<ReplaySpec>, index: u64, tier: Tier, w
         property: "C08".into(),
         class: class.into(),
         detail,
-        spec: serde_json::to_value(&ReplaySpec { source: source.clone(), history, conc, faults, eio, bufcap }).unwrap(),
+        spec: serde_json::to_value(&ReplaySpec { source: source.clone(), history, conc, faults, eio, bufcap, inspect: None }).unwrap(),
         engine: "reader-sim".into(),
         index,
         event_log_digest: arch_id,
@@ -253,6 +271,70 @@ fn explore(source: PipeSpec, only: Option<ReplaySpec>, index: u64, tier: Tier, w
             }
         }
     }
+    // `ragc inspect` (its own sequence of queries on one handle, incl. the per-sample query followed
+    // by a full-table query of the property's example): any option combination on a valid archive
+    // may fail with an error value, never crash
+    if only.is_none() || only.as_ref().map(|o| o.inspect.is_some()).unwrap_or(false) {
+        let mut ri = Rng::new(arch_id ^ 0x1A5);
+        let sample_names: Vec<String> = qs.iter().filter_map(|q| if let Q::GetSample(s) = q { Some(s.clone()) } else { None }).collect();
+        let contig_names: Vec<String> = qs.iter().filter_map(|q| if let Q::GetContig(_, c) = q { Some(c.clone()) } else { None }).collect();
+        let configs: Vec<InspectSpec> = match &only {
+            Some(o) => o.inspect.iter().cloned().collect(),
+            None => (0..if tier == Tier::Quick { 40 } else { 400 })
+                .map(|_| InspectSpec {
+                    verbosity: ri.below(3) as u32,
+                    show_groups: ri.pct(70),
+                    show_segments: ri.pct(50),
+                    group_id: match ri.below(4) { 0 => Some(ri.below(40) as u32), 1 => Some(999_999), _ => None },
+                    sample: if ri.pct(50) { Some(sample_names[ri.below(sample_names.len() as u64) as usize].clone()) } else { None },
+                    contig: if ri.pct(40) { Some(contig_names[ri.below(contig_names.len() as u64) as usize].clone()) } else { None },
+                    index: match ri.below(4) { 0 => Some(ri.below(4) as usize), 1 => Some(10_000), _ => None },
+                    single_groups: ri.pct(10),
+                    segment_layout: ri.pct(10),
+                    pack_layout: ri.pct(10),
+                    compression: ri.pct(10),
+                })
+                .collect(),
+        };
+        for c in configs {
+            let mut world = ragc_common::verif::World::new();
+            world.put_file(reader::PATH, bytes.as_ref().clone());
+            let c2 = c.clone();
+            let (res, world) = crate::simrun::run_plain(world, move || {
+                use crate::ragc_cli::verif_cli as cli;
+                cli::inspect(std::path::PathBuf::from(reader::PATH), cli::InspectConfig {
+                    verbosity: c2.verbosity,
+                    show_groups: c2.show_groups,
+                    show_segments: c2.show_segments,
+                    group_id_filter: c2.group_id,
+                    sample_filter: c2.sample,
+                    contig_filter: c2.contig,
+                    segment_index: c2.index,
+                    show_single_segment_groups: c2.single_groups,
+                    show_segment_layout: c2.segment_layout,
+                    show_pack_layout: c2.pack_layout,
+                    show_compression: c2.compression,
+                    compare_with: None,
+                })
+                .is_ok()
+            });
+            r.evaluations += 1;
+            r.count("inspect_runs", 1);
+            r.count("inspect_stdout_bytes", world.get_file(ragc_common::verif::STDOUT_PATH).map(|b| b.len()).unwrap_or(0) as u64);
+            match res {
+                Ok(true) => r.count("inspect_ok", 1),
+                Ok(false) => r.count("inspect_err_value", 1),
+                Err(p) => {
+                    r.count("bad.inspect-panic", 1);
+                    if first.is_none() {
+                        let mut v = mk("panic", format!("ragc inspect {c:?} crashed on a valid archive: {p}"), None, None, None);
+                        v.spec["inspect"] = serde_json::to_value(&c).unwrap();
+                        first = Some(v);
+                    }
+                }
+            }
+        }
+    }
     if want_sample {
         r.sample = Some(json!({"index": index, "samples_in_archive": source.gen.n_samples, "alphabet": qs,
             "example_history": [qs.get(4), qs.get(6), qs.get(17)]}));
@@ -293,10 +375,10 @@ impl Prop for C08 {
                 if rs.eio.is_some() && eio.is_none() {
                     continue;
                 }
-                out.push(ReplaySpec { source: rs.source.clone(), history: Some(h2), conc: None, faults: rs.faults, eio, bufcap: rs.bufcap });
+                out.push(ReplaySpec { source: rs.source.clone(), history: Some(h2), conc: None, faults: rs.faults, eio, bufcap: rs.bufcap, inspect: None });
             }
             if rs.faults.is_some() {
-                out.push(ReplaySpec { source: rs.source.clone(), history: Some(h.clone()), conc: None, faults: None, eio: rs.eio, bufcap: rs.bufcap });
+                out.push(ReplaySpec { source: rs.source.clone(), history: Some(h.clone()), conc: None, faults: None, eio: rs.eio, bufcap: rs.bufcap, inspect: None });
             }
         }
         out.into_iter().map(|s| serde_json::to_value(&s).unwrap()).collect()
